@@ -464,11 +464,17 @@ def check_C12(tier):
         for d in _stackvec_entries(f0):
             for m in ("dbg", "rel"):
                 jobs.append({"config": c, "mode": m, "model": "arbitrary", "kind": "fn", "target": d})
+    jobs += [{"config": c, "mode": m, "model": "valid", "kind": "hi64", "target": "hi64"} for c in ecl for m in ("dbg", "rel")]
     results = [r for r in run_jobs(jobs) if not ("error" in r and "no instance" in r["error"])]
+    n_hi = sum(1 for r in results for res in r.get("results", []) for o in res["obs"] if o["kind"].startswith("post:hi64"))
+    rep.floor("hi64 class obligations (one per configuration and mode)", n_hi, 2 * len(ecl))
     efx = F.build_many([(c, "rel") for c in ecl])
     _e4_report(rep, "C12", results, lambda j: "%s/%s big-integer layer" % (j["config"], j["mode"]),
                {"%s/%s big-integer layer" % (c, m): efx[(c, "rel")] for c in ecl for m in ("dbg", "rel")},
                fn_filter=lambda o: o["fn"].startswith(("minimal_lexical::bigint::", "minimal_lexical::stackvec::", "minimal_lexical::heapvec::")), floor_per_group=30)
+    rep.note("hi64 of one and two limbs: r0 partitioned by its leading-zero count (64 classes covering every non-zero limb), r1 into {0}, the values whose "
+             "dropped bits are non-zero, and the rest; value normalised (exact when r1 contributes nothing), sticky flag false for r1 = 0 and true when dropped bits "
+             "are non-zero. The scan of the lower limbs (`nonzero`) and hi64 for three or more limbs are NOT decided.")
     hw, _ = E.r_wrapping_arith(fixture, "bad::", set())
     h, _ = E.r_dropped_failure(fixture)
     ctl = [E.control_obs("R12.1", R, h, "ctl_dropped_failure"), E.control_obs("R12.4", R4, [E.Hit(x.fn.replace("bad::", ""), x.what) for x in hw], "ctl_wrapping_limb")]
@@ -489,7 +495,8 @@ def check_C12(tier):
         "(E4, modular under the vector invariant) in bigint.rs / stackvec.rs every non-wrapping `+ - *` cannot overflow, every narrowing cast is "
         "value-preserving except the audited halves of the widening idiom, raw accesses stay in capacity. "
         "Failure discipline: every call to a library function returning Option/Result has its result read (MIR def-use), so a capacity failure "
-        "cannot be silently ignored; carry discipline: both components of every (value, carry) pair are read; LARGE_POW5 = 5^LARGE_POW5_STEP and SMALL_INT_POW5 exact. Exactness of the carry chains is NOT decided here.",
+        "cannot be silently ignored; carry discipline: both components of every (value, carry) pair are read; top-64-bit extraction from one and two limbs is "
+        "exact on the leading-zero classes (value and sticky flag); LARGE_POW5 = 5^LARGE_POW5_STEP and SMALL_INT_POW5 exact. Exactness of the carry chains is NOT decided here.",
         [A_TOOL, A_TARGET],
     )
 
